@@ -22,6 +22,8 @@ func main() {
 	verif := flag.String("verif", "/verif", "verification directory (known findings, evidence, out)")
 	replay := flag.String("replay", "", "replay file: re-evaluate that obligation on the current tree")
 	list := flag.Bool("list", false, "list properties with a registered check")
+	selftest := flag.String("selftest", "", "thorough: JSON result of tools/selftest.py for this property, merged into the evidence")
+	xref := flag.String("xref", "", "thorough: JSON with counts of the generic cross-reference tools (informational)")
 	flag.Parse()
 
 	if *list {
@@ -75,6 +77,15 @@ func main() {
 			return 2
 		}
 		f(run)
+		if *tier == "thorough" && *replay == "" {
+			platformMatrix(run, f, *prop, *repo, *verif)
+			if *selftest != "" {
+				mergeSelftest(run, *selftest)
+			}
+			if *xref != "" {
+				mergeJSON(run, "cross_reference_tools", *xref)
+			}
+		}
 		if *replay != "" {
 			for _, o := range run.Obls {
 				if o.Rule == want.Rule && o.Key == want.Construct {
@@ -102,4 +113,88 @@ func flagSet(name string) bool {
 		}
 	})
 	return set
+}
+
+// platformMatrix re-runs the rules on the tree loaded for other target
+// platforms and requires the same verdicts: a violation found only there is
+// added to the run; a construct violated on the host only is kept.
+func platformMatrix(run *core.Run, f func(*core.Run), prop, repo, verif string) {
+	var plats []map[string]interface{}
+	host := run.ViolatedKeys()
+	for _, env := range [][]string{{"GOARCH=386"}, {"GOOS=windows"}} {
+		t0 := time.Now()
+		p2, err := core.Load(repo, env...)
+		if err != nil {
+			run.Unresolved("platform %v: cannot load: %v", env, err)
+			continue
+		}
+		r2, err := core.NewRun(prop, "thorough", verif, p2, t0)
+		if err != nil {
+			run.Unresolved("platform %v: %v", env, err)
+			continue
+		}
+		f(r2)
+		other := r2.ViolatedKeys()
+		added := 0
+		for k, o := range other {
+			if _, ok := host[k]; !ok {
+				o.Key = o.Key + "@" + env[0]
+				o.Detail = "[" + env[0] + " only] " + o.Detail
+				run.Obls = append(run.Obls, o)
+				added++
+			}
+		}
+		for _, m := range r2.CheckFloors() {
+			run.Unresolved("platform %v: %s", env, m)
+		}
+		for _, m := range r2.UnresolvedList() {
+			run.Unresolved("platform %v: %s", env, m)
+		}
+		n := 0
+		for _, o := range r2.Obls {
+			if o.Status != "info" {
+				n++
+			}
+		}
+		plats = append(plats, map[string]interface{}{"env": env, "obligations": n, "violations_only_there": added, "secs": time.Since(t0).Seconds()})
+	}
+	run.Extra["platform_matrix"] = plats
+}
+
+func mergeSelftest(run *core.Run, path string) {
+	bts, err := os.ReadFile(path)
+	if err != nil {
+		run.Unresolved("self-test result %s not readable: %v", path, err)
+		return
+	}
+	var st struct {
+		Summary map[string]int     `json:"summary"`
+		Results [][]interface{}    `json:"results"`
+	}
+	if err := json.Unmarshal(bts, &st); err != nil {
+		run.Unresolved("self-test result %s: %v", path, err)
+		return
+	}
+	run.Extra["checker_selftest"] = st.Summary
+	var missed []string
+	for _, r := range st.Results {
+		if len(r) >= 2 && (r[1] == "MISSED" || r[1] == "broken") {
+			missed = append(missed, fmt.Sprint(r[0]))
+		}
+	}
+	run.Extra["checker_selftest_missed"] = missed
+	if len(missed) > 0 {
+		run.Unresolved("checker self-test: %d seeded mutant(s)/seed(s) of this property are no longer detected: %v", len(missed), missed)
+	}
+}
+
+func mergeJSON(run *core.Run, key, path string) {
+	bts, err := os.ReadFile(path)
+	if err != nil {
+		return
+	}
+	var v interface{}
+	if json.Unmarshal(bts, &v) == nil {
+		run.Extra[key] = v
+	}
 }
